@@ -150,7 +150,7 @@ func init() {
 	register(&Check{
 		ID:    "C01",
 		Level: "exploration",
-		Rule: "every program of <= n nodes of each driver grammar (D1 control, D1r reduced/deeper, D2 primitives, D3 anchors, D5 naming incl. recursion and predicates) x every text over the driver alphabet up to its length bound; " +
+		Rule: "every program of <= n nodes of each driver grammar (D1 control, D1r reduced/deeper, D2 primitives, D3 anchors, D5 naming incl. recursion and predicates, D7 nullable loop bodies, D7n the same with one or two loops named) x every text over the driver alphabet up to its length bound; " +
 			"engine spans compared with the reference backtracking matcher R; on the regular subset (no back-references, recursion, predicates, negated or word anchors, nullable loop bodies) R itself is compared on every case with Go's regexp applied through the documented Regex-to-Vore table, a disagreement ending the run as ORACLE-DISAGREEMENT (counters.model_validated_cases); non-trivial = (program,text) pairs (each evaluated once, hence distinct) for which R reports at least one match",
 		Assume: []string{"reference matcher R (vmc/ref.go) encodes the documented semantics", "inputs are ASCII", "loop-id collisions of rand.Int63 ignored (2^-63)"},
 		Budget: map[string]int{"quick": 120, "thorough": 1500},
@@ -224,6 +224,25 @@ func runC01(c *Ctx) {
 			if c.Unit(func() string { return progDesc(p) }) {
 				c.Count("programs", 1)
 				semUnit(c, "C01", p, texts("a\n", 4), false, false)
+			}
+		}
+	}
+	// D7n: naming a loop must not change what it matches (named loops are not unrolled by the
+	// generator: their mandatory iterations run under the zero-length-iteration guard)
+	g7n := &Gram{Atoms: []*T{lit("a"), {K: SEQ}, anchor("line start", false), {K: IN, Neg: true, Items: []Item{{K: 0, S: "a"}}}}, Or: true,
+		Loops: []LoopKind{{0, 1, false}, {0, -1, false}, {0, -1, true}, {1, -1, false}, {2, -1, false}, {1, 2, false}, {1, 2, true}}}
+	for n := 2; n <= c.Pick(4, 5); n++ {
+		if !c.Level("D7n:n=" + itoa(n)) {
+			return
+		}
+		for _, raw := range g7n.Seqs(n) {
+			for _, nb := range nameLoopsOpt(raw, false) {
+				p := &Prog{Body: nb}
+				if c.Unit(func() string { return progDesc(p) }) {
+					c.Count("programs", 1)
+					c.Count("named_loop_programs", 1)
+					semUnit(c, "C01", p, texts("a\n", 4), false, false)
+				}
 			}
 		}
 	}
